@@ -100,7 +100,7 @@ func (d *Driver) checkTransition(o *elObj, from, to string) {
 	if o.afterStart || want == "" {
 		want = "CANDIDATE"
 	}
-	if from != want {
+	if from != want && !(o.startInFlight > 0 && from == "CANDIDATE") {
 		d.h.violate("C18", fmt.Sprintf("transition-chain-broken/%s->%s/after:%s", from, to, want), fmt.Sprintf("i%d.%d recorded transition %s -> %s but its previous to-state was %s", o.in.idx, o.gen, from, to, want), d.now(), d.step)
 	}
 }
